@@ -2,8 +2,10 @@ SPECIFICATION Spec
 CONSTANTS
   Pools = {"proc", "thread", "sched"}
   Sizes = {1, 3}
+  Avail = {1, 2, 3, 16}
   MaxOps = 6
 VIEW View
 INVARIANT SuppliedCallsSucceed
+INVARIANT DefaultUsable
 PROPERTY OnlyClientCloses
 CHECK_DEADLOCK FALSE
